@@ -301,7 +301,7 @@ func main() {
 		racePass(r, rounds)
 	}
 	if r.Fork(16) {
-		r.Set("rule", "part 1: 22 scenarios of 2-3 concurrent operations (two specifications built to collide on repeated multi-symbol sub-expressions, a pattern, a specification with errors, automaton and table construction); scheduling points = every statement of /repo touching a package-level variable; all interleavings with at most the preemption bound, preempting at the first 6 (quick) / 24 (thorough) dynamic occurrences of every static point, are enumerated, each thread's result compared with the same operation run alone in a fresh process, and every returned specification rendered again after all threads have finished (a result must stay what it was); states = distinct outcomes, transitions = scheduling points passed; part 2: free-running -race pass; part 3: every sequential history up to the length bound over 19 operations that succeed or fail as a whole, every shorter history over all 31 operations (12 of them fail midway: generation stopped by conflicting definitions and by an LALR(1) conflict, unclosed groups and brackets, bad ranges, lexical / syntax errors inside open brackets, unterminated strings, invalid token patterns); part 4: every operation repeated up to the repetition bound, then every operation once")
+		r.Set("rule", "part 1: 22 scenarios of 2-3 concurrent operations (two specifications built to collide on repeated multi-symbol sub-expressions, a pattern, a specification with errors, automaton and table construction); scheduling points = every statement of /repo touching a package-level variable; all interleavings with at most the preemption bound, preempting at the first 6 (quick) / 24 (thorough) dynamic occurrences of every static point, are enumerated, each thread's result compared with the same operation run alone in a fresh process, and every returned specification rendered again after all threads have finished (a result must stay what it was); states = distinct outcomes, transitions = scheduling points passed; part 2: free-running -race pass; part 3: every sequential history up to the length bound over 19 operations that succeed or fail as a whole, every shorter history over all 34 operations (14 of them fail midway: the generic parse tree of a rejected specification, generation stopped by conflicting definitions and by an LALR(1) conflict, unclosed groups and brackets, bad ranges, lexical / syntax errors inside open brackets, unterminated strings, invalid token patterns); part 4: every operation repeated up to the repetition bound, then every operation once")
 		r.Set("evaluations", r.Get("executions")+r.Get("histories"))
 		r.Set("traces_validated_against_impl", r.Get("executions")+r.Get("histories"))
 		if r.Get("states") == 0 {
